@@ -20,6 +20,7 @@ import (
 	"github.com/bufbuild/buf/private/buf/cmd/buf"
 	"github.com/bufbuild/buf/private/pkg/app"
 	"github.com/bufbuild/buf/private/pkg/app/appcmd"
+	"github.com/bufbuild/buf/private/pkg/osext"
 )
 
 // Out is the observable outcome of one CLI execution.
@@ -48,10 +49,11 @@ func BufEnv(home string, extra map[string]string) map[string]string {
 func Buf(dir string, env map[string]string, stdin io.Reader, args ...string) Out {
 	if dir != "" {
 		old, _ := os.Getwd()
-		if err := os.Chdir(dir); err != nil {
+		// buf caches the working directory process-wide (osext.Getwd); osext.Chdir clears the cache
+		if err := osext.Chdir(dir); err != nil {
 			return Out{Stderr: []byte("chdir: " + err.Error()), Code: -1}
 		}
-		defer os.Chdir(old)
+		defer osext.Chdir(old)
 	}
 	if stdin == nil {
 		stdin = strings.NewReader("")
